@@ -724,6 +724,10 @@ def synthetic_definitions():
                 P("LeaderId", "int32", (0, INF), default="-1"),
                 P("Rack", "string", (0, INF)),
             ]),
+            dict(kind="struct", name="LimitsInfo", type="LimitsInfo", versions=(2, INF), taggedVersions=(2, INF), tag=8, fields=[
+                P("Soft", "int32", (0, INF), default="0"),
+                P("Hard", "int32", (0, INF), taggedVersions=(2, INF), tag=0, ignorable=False),  # tagged, but a required keyword: no default
+            ]),
             P("Reason", "string", (0, INF), taggedVersions=(2, INF), tag=2, ignorable=True),
             P("TransactionalId", "string", (0, INF), nullableVersions=(1, INF), entityType="transactionalId"),
             P("ProducerId", "int64", (1, INF), entityType="producerId"),
